@@ -42,7 +42,7 @@ fn main() {
     let (ret, calls) = match result {
         Ok((r, c, _)) => (r, c),
         // a panic of the code under test is a (loud) failure report, not a success
-        Err(_) => (ARet { ok: false, kind: "Panic".into(), cause: "-".into(), c: "-".into(), md: no_md(), env: "none".into() }, vec![]),
+        Err(_) => (ARet { ok: false, kind: "Panic".into(), cause: "-".into(), c: "-".into(), md: no_md(), env: "none".into(), ty: no_ty() }, vec![]),
     };
     let post = project(&u, &layers_dir, name);
     let raw = fsnap::snapshot(&layers_dir);
